@@ -526,6 +526,10 @@ func (vc *VC) queryFor(o *Obligation) string {
 		bs := sanitize(s)
 		fmt.Fprintf(&b, "(declare-fun box!%s (%s) Int)\n(declare-fun unbox!%s (Int) %s)\n", bs, s, bs, s)
 	}
+	for _, d := range vc.eng.verdictDecls {
+		b.WriteString(d)
+		b.WriteByte('\n')
+	}
 	for _, d := range vc.rawDecls {
 		b.WriteString(d)
 		b.WriteByte('\n')
